@@ -467,6 +467,8 @@ func verifLemmaOrder(a, b, c Endpoint) (irrefl, trans, total bool) {
 // afterwards the last layer is that failure.
 //@ func (p *packet) addFinalDecodeError(err error, stack []byte)
 //@   props C01
+//@   requires err != nil
+//@   ensures cast(p.last, DecodeFailure).err == err
 //@   ensures len(p.layers) == old(len(p.layers)) + 1 && p.last == p.layers[len(p.layers)-1]
 //@   ensures typeis(p.last, P_DecodeFailure) && fresh(ifaceptr(p.last))
 //@   ensures old(p.failure) == nil ==> ifaceptr(p.failure) == ifaceptr(p.last) && typeis(p.failure, P_DecodeFailure)
